@@ -34,7 +34,7 @@ def body():
     chk.assume(
         "closed-form kernels 1/(4 pi r), exp(ikr)/(4 pi r), exp(-wr)/(4 pi r), their normal derivatives and gradients, and the far-field kernels "
         "exp(-ik x.y)/(4 pi), -ik (x.n) exp(-ik x.y)/(4 pi) are evaluated with numpy; space.evaluate gives the local basis functions (validated by C09/C13)",
-        "the limit clause is evaluated at r = 400 D (D the grid diameter): difference bounded by 5 (1 + |k| D) D / r; the PDE clauses by central differences "
+        "the limit clause is evaluated at r = 400 D (D the grid diameter; r = 600 / Im k if that is smaller, so that exp(Im k r) stays representable): difference bounded by 5 (1 + |k| D) D / r; the PDE clauses by central differences "
         "with steps h and h/2: combined by Richardson extrapolation: the residual must be below 5e-3 of the size of its terms (measured on the current tree: at most 1.2e-3 at twice the step on the thinnest mesh of the thorough universe; a wrong kernel gives O(1))",
         "points at least one grid diameter away from the surface",
         "the Maxwell equations for the potentials are judged for densities without flux through the boundary of their support (whole closed grid, or no boundary dofs)",
@@ -185,16 +185,18 @@ def body():
                             cmp("far_field.helmholtz.double_layer k=%s" % k, Fd, fdl)
                             # (c) limit
                             if n_sp == 0:
-                                r_ = 400.0 * Dm
+                                r_ = min(400.0 * Dm, 600.0 / k.imag) if np.imag(k) > 0 else 400.0 * Dm      # exp(Im k r) must stay representable
                                 bound = 5 * (1 + abs(k) * Dm) * Dm / r_
                                 for nm, P_, F_ in (("single_layer", pot.helmholtz.single_layer, Fs), ("double_layer", pot.helmholtz.double_layer, Fd)):
                                     u = np.asarray(P_(sp, dirs * r_, k).evaluate(f)).ravel()
                                     lim = r_ * np.exp(-1j * k * r_) * u
                                     e_ = np.abs(lim - F_).max() / max(1e-12, np.abs(F_).max())
+                                    if not np.isfinite(e_):
+                                        raise common.MachineryError("limit clause not evaluable (overflow) for k = %s at r = %g" % (k, r_))
                                     worst["limit"] = max(worst["limit"], float(e_ / bound))
                                     chk.count((sig, "limit", nm, k), True)
                                     if e_ > bound:
-                                        fail("limit:helmholtz.%s" % nm, "far field differs from r exp(-ikr) potential(r x) at r = 400 D by %.3g (bound %.3g, k = %s)" % (e_, bound, k))
+                                        fail("limit:helmholtz.%s" % nm, "far field differs from r exp(-ikr) potential(r x) at r = %.0f D by %.3g (bound %.3g, k = %s)" % (r_ / Dm, e_, bound, k))
                     else:
                         divs = surface_div(grid, sp, c, els)
 
@@ -224,16 +226,18 @@ def body():
                             cmp("far_field.maxwell.electric_field k=%s" % k, Fe, fe)
                             cmp("far_field.maxwell.magnetic_field k=%s" % k, Fm, fm)
                             if n_sp == 0:
-                                r_ = 400.0 * Dm
+                                r_ = min(400.0 * Dm, 600.0 / k.imag) if np.imag(k) > 0 else 400.0 * Dm      # exp(Im k r) must stay representable
                                 bound = 5 * (1 + abs(k) * Dm) * Dm / r_
                                 for nm, P_, F_ in (("electric_field", pot.maxwell.electric_field, Fe), ("magnetic_field", pot.maxwell.magnetic_field, Fm)):
                                     u = np.asarray(P_(sp, dirs * r_, k).evaluate(f))
                                     lim = r_ * np.exp(-1j * k * r_) * u
                                     e_ = np.abs(lim - F_).max() / max(1e-12, np.abs(F_).max())
+                                    if not np.isfinite(e_):
+                                        raise common.MachineryError("limit clause not evaluable (overflow) for k = %s at r = %g" % (k, r_))
                                     worst["limit"] = max(worst["limit"], float(e_ / bound))
                                     chk.count((sig, "limit", nm, k), True)
                                     if e_ > bound:
-                                        fail("limit:maxwell.%s" % nm, "far field differs from r exp(-ikr) potential(r x) at r = 400 D by %.3g (bound %.3g, k = %s)" % (e_, bound, k))
+                                        fail("limit:maxwell.%s" % nm, "far field differs from r exp(-ikr) potential(r x) at r = %.0f D by %.3g (bound %.3g, k = %s)" % (r_ / Dm, e_, bound, k))
                     # ---- normals of one domain swapped: the double-layer type kernels take the normal of the element with its multiplier
                     doms = sorted(set(int(x) for x in grid.domain_indices))
                     if scalar and len(doms) > 1 and n_sp % 2 == 0:
